@@ -44,6 +44,20 @@ def eval_attrs(args):
     return dict(base=(buse, bfix), derived=(duse, dfix), version=ver, bad=bad) if bad else False
 
 
+def eval_fixed_ws(args):
+    bt, dt, bf, df, ver = args
+    import xmlschema
+    text = f'''<xs:schema {XS}><xs:complexType name="B"><xs:attribute name="a" type="{bt}" fixed="{bf}"/></xs:complexType>
+<xs:complexType name="D"><xs:complexContent><xs:restriction base="B"><xs:attribute name="a" type="{dt}" fixed="{df}"/></xs:restriction></xs:complexContent></xs:complexType>
+<xs:element name="b" type="B"/><xs:element name="d" type="D"/></xs:schema>'''
+    try: s = _cls(ver)(text)
+    except xmlschema.XMLSchemaException: return None
+    bad = []
+    for v in ('x y', 'xy', 'x'):          # literals that no whitespace facet alters: a verdict difference is a difference of the admitted values
+        if s.is_valid(f'<d a="{v}"/>') and not s.is_valid(f'<b a="{v}"/>'): bad.append(v)
+    return bad or False
+
+
 def run(tier, seed, open_findings):
     jobs = []
     for kind, facets in (('int', INT_FACETS), ('str', STR_FACETS)):
@@ -62,13 +76,24 @@ def run(tier, seed, open_findings):
     ajobs = [(bu, du, bf, df, ver) for bu in uses for du in uses for bf in fixes for df in fixes for ver in ('1.0', '1.1')
              if not (bu == 'prohibited' and bf) and not (du == 'prohibited' and df)]
     ares = pmap(eval_attrs, ajobs)
+    # fixed values are compared in the value space of the BASE attribute: a restricted type with a stronger whiteSpace facet must not make a different
+    # base value look equal
+    wjobs = [(bt, dt, bf, df, ver) for bt, dt in (('xs:string', 'xs:token'), ('xs:string', 'xs:normalizedString'), ('xs:normalizedString', 'xs:token'), ('xs:string', 'xs:string'))
+             for bf in ('x y', 'x  y', ' x y', 'x&#9;y') for df in ('x y', 'x  y') for ver in ('1.0', '1.1')]
+    wres = pmap(eval_fixed_ws, wjobs)
+    wfail = [dict(case=dict(base_type=j[0], derived_type=j[1], base_fixed=j[2], derived_fixed=j[3], version=j[4]), observed=f"derived accepts {r} that the base rejects", required='attribute sets(derived) subset of (base)') for r, j in zip(wres, wjobs) if r]
     afail = [dict(case=dict(base=r['base'], derived=r['derived'], version=r['version']), observed=f"derived accepts {r['bad']} that the base rejects", required='attribute sets(derived) subset of (base)') for r in ares if r]
+    out.append(result('C14.attribute_fixed_whitespace', f'{len(wjobs)} (base type, derived type, base fixed, derived fixed, class) combinations x 3 collapsed instance values', len(wjobs), wfail, exhaustive=True,
+                      distinct=sum(1 for r in wres if r is not None), samples=[dict(base_type='xs:string', derived_type='xs:token', base_fixed='x  y', derived_fixed='x y')]))
     out.append(result('C14.attribute_use_pairs', f'{len(ajobs)} (base use/fixed, derived use/fixed, class) combinations x 4 instances', len(ajobs), afail, exhaustive=True,
                       distinct=sum(1 for r in ares if r is not None), samples=[dict(base=ajobs[7][:2], derived=ajobs[7][2:4])]))
     return out
 
 
 def replay(check_name, case):
+    if check_name == 'C14.attribute_fixed_whitespace':
+        r = eval_fixed_ws((case['base_type'], case['derived_type'], case['base_fixed'], case['derived_fixed'], case['version']))
+        return dict(ok=not r, observed=r, required='derived admits a subset')
     if check_name == 'C14.facet_pairs':
         r = eval_facets((case['kind'], [tuple(x) for x in case['base']], [tuple(x) for x in case['derived']], case['version']))
     else:
